@@ -1089,6 +1089,10 @@ class Structure(UniqueMixin, metaclass=StructMeta):
     def __init__(self, *args, **kwargs):
         if getattr(self, "_trust_supplied_values", False):
             field_by_name = self.__class__.get_all_fields_by_name()
+            # once per instance, also for an instance made from no values: the bookkeeping entries, and the
+            # cooperative call that lets FastSerializable.__init__ install the class's serializer
+            self.__dict__["_instantiated"] = True
+            self.__dict__["_none_fields"] = set()
             for key, value in kwargs.items():
                 if (
                         TypedPyDefaults.safe_trusted_instantiation
@@ -1097,9 +1101,7 @@ class Structure(UniqueMixin, metaclass=StructMeta):
                 ):
                     value = field_by_name[key]._from_trusted_value(value, self)
                 self.__dict__[key] = value
-                self.__dict__["_instantiated"] = True
-                self.__dict__["_none_fields"] = set()
-                super().__init__()
+            super().__init__()
             return
         try:
             bound = getattr(self, "__signature__").bind(*args, **kwargs)
